@@ -24,10 +24,7 @@ func (e *OrderedLines) Len() int {
 	if e.idx >= len(e.lines) {
 		return 0
 	}
-	if e.idx <= 0 {
-		return len(e.lines)
-	}
-	return len(e.lines[e.idx:])
+	return len(e.lines[e.idx+1:])
 }
 
 // Next returns whether the next call of Line will return a valid line.
@@ -55,10 +52,7 @@ func (e *OrderedLines) LineSlice() []graph.Line {
 	if e.idx >= len(e.lines) {
 		return nil
 	}
-	idx := e.idx
-	if idx == -1 {
-		idx = 0
-	}
+	idx := e.idx + 1
 	e.idx = len(e.lines)
 	return e.lines[idx:]
 }
@@ -86,10 +80,7 @@ func (e *OrderedWeightedLines) Len() int {
 	if e.idx >= len(e.lines) {
 		return 0
 	}
-	if e.idx <= 0 {
-		return len(e.lines)
-	}
-	return len(e.lines[e.idx:])
+	return len(e.lines[e.idx+1:])
 }
 
 // Next returns whether the next call of WeightedLine will return a valid line.
@@ -117,10 +108,7 @@ func (e *OrderedWeightedLines) WeightedLineSlice() []graph.WeightedLine {
 	if e.idx >= len(e.lines) {
 		return nil
 	}
-	idx := e.idx
-	if idx == -1 {
-		idx = 0
-	}
+	idx := e.idx + 1
 	e.idx = len(e.lines)
 	return e.lines[idx:]
 }
